@@ -169,9 +169,9 @@ def prove(pid: str, thorough=False) -> dict:
         out = r.stdout + r.stderr
         res["log"] += out[-3000:]
         seen = {}
-        for m in re.finditer(r"'([^']+)' depends on axioms: \[([^\]]*)\]", out.replace("\n", " ")):
+        for m in re.finditer(r"'(\S+)' depends on axioms: \[([^\]]*)\]", out.replace("\n", " ")):
             seen[m.group(1)] = {a.strip() for a in m.group(2).split(",") if a.strip()}
-        for m in re.finditer(r"'([^']+)' does not depend on any axioms", out):
+        for m in re.finditer(r"'(\S+)' does not depend on any axioms", out):
             seen[m.group(1)] = set()
         for t in thms:
             if t not in seen:
